@@ -17,7 +17,13 @@ use serde_json::{json, Value};
 
 pub struct C20;
 
-const ALPHABET: [&str; 11] = ["(", ")", "[", "]", "#(", "\"", ";", "\n", " ", "a", "#\\("];
+/// The first 11 lexemes are the alphabet of the statement (enumerated exhaustively); the others
+/// (Unicode white space, a multi-byte identifier character, braces) only occur in the random
+/// pass over the harness' own tokenisation.
+const ALPHABET: [&str; 18] = [
+    "(", ")", "[", "]", "#(", "\"", ";", "\n", " ", "a", "#\\(", "\t", "\u{a0}", "\u{85}", "\u{b}", "λ", "{", "}",
+];
+const EXHAUSTIVE_LEXEMES: usize = 11;
 const ESC_ON: &str = "\x1b[4m";
 const ESC_OFF: &str = "\x1b[0m";
 
@@ -50,12 +56,12 @@ fn ref_tokens(lexemes: &[usize], semi_in_ident: bool) -> (Option<Vec<Tok>>, bool
     while i < lexemes.len() {
         let lx = ALPHABET[lexemes[i]];
         match lx {
-            "(" | "[" | "#(" => {
+            "(" | "[" | "{" | "#(" => {
                 toks.push(Tok { span: (pos, pos + lx.len()), kind: Kind::Open });
                 pos += lx.len();
                 i += 1;
             }
-            ")" | "]" => {
+            ")" | "]" | "}" => {
                 toks.push(Tok { span: (pos, pos + 1), kind: Kind::Close });
                 pos += 1;
                 i += 1;
@@ -80,7 +86,7 @@ fn ref_tokens(lexemes: &[usize], semi_in_ident: bool) -> (Option<Vec<Tok>>, bool
                 toks.push(Tok { span: (start, pos), kind: Kind::Other });
             }
             ";" => {
-                if i > 0 && ALPHABET[lexemes[i - 1]] == "a" {
+                if i > 0 && matches!(ALPHABET[lexemes[i - 1]], "a" | "λ") {
                     ident_semicolon = true;
                 }
                 while i < lexemes.len() && ALPHABET[lexemes[i]] != "\n" {
@@ -88,16 +94,16 @@ fn ref_tokens(lexemes: &[usize], semi_in_ident: bool) -> (Option<Vec<Tok>>, bool
                     i += 1;
                 }
             }
-            "\n" | " " => {
-                pos += 1;
+            "\n" | " " | "\t" | "\u{a0}" | "\u{85}" | "\u{b}" => {
+                pos += lx.len();
                 i += 1;
             }
-            "a" => {
+            "a" | "λ" => {
                 let start = pos;
                 while i < lexemes.len()
-                    && (ALPHABET[lexemes[i]] == "a" || (semi_in_ident && ALPHABET[lexemes[i]] == ";"))
+                    && (matches!(ALPHABET[lexemes[i]], "a" | "λ") || (semi_in_ident && ALPHABET[lexemes[i]] == ";"))
                 {
-                    pos += 1;
+                    pos += ALPHABET[lexemes[i]].len();
                     i += 1;
                 }
                 toks.push(Tok { span: (start, pos), kind: Kind::Other });
@@ -345,8 +351,8 @@ fn check_with(hl: &ReplHighlighter, text: &str, toks: &Option<Vec<Tok>>, cursor:
 fn lexemes_of(mut idx: u64, len: usize) -> Vec<usize> {
     let mut v = vec![0; len];
     for slot in v.iter_mut().rev() {
-        *slot = (idx % 11) as usize;
-        idx /= 11;
+        *slot = (idx % EXHAUSTIVE_LEXEMES as u64) as usize;
+        idx /= EXHAUSTIVE_LEXEMES as u64;
     }
     v
 }
@@ -396,6 +402,33 @@ fn soup_case(bytes: &[u8]) -> (String, usize) {
     (text, cursor)
 }
 
+/// Random strings of up to 14 lexemes over the whole alphabet (incl. Unicode white space, a
+/// multi-byte identifier character and braces), tokenised by the harness itself.
+fn ext_outcome(ctx: &Ctx, bytes: &[u8]) -> Outcome {
+    let mut c = Choices::new(bytes);
+    let n = c.below(15);
+    let lx: Vec<usize> = (0..n).map(|_| if c.chance(110) { EXHAUSTIVE_LEXEMES + c.below(ALPHABET.len() - EXHAUSTIVE_LEXEMES) } else { c.below(ALPHABET.len()) }).collect();
+    let text: String = lx.iter().map(|l| ALPHABET[*l]).collect();
+    let cursor = c.below(text.len() + 3);
+    let v = check_exh(&text, &lx, cursor);
+    let render = json!({"text": text, "cursor": cursor});
+    if v.nontrivial {
+        ctx.nontrivial_str(&format!("ext:{}:{}", text, cursor));
+        ctx.class("ext:nontrivial");
+    }
+    if v.highlighted {
+        ctx.class("ext:highlighted");
+    }
+    if lx.iter().any(|l| matches!(ALPHABET[*l], "\u{a0}" | "\u{85}" | "\u{b}" | "\t")) {
+        ctx.class("ext:unicode-or-control-white-space");
+    }
+    ctx.sample(|| render.clone());
+    match v.fail {
+        Some((sig, detail)) => Outcome::fail(sig, detail, render),
+        None => Outcome::Pass,
+    }
+}
+
 pub fn soup_outcome(ctx: &Ctx, bytes: &[u8]) -> Outcome {
     let (text, cursor) = soup_case(bytes);
     let toks = sut_tokens(&text);
@@ -439,7 +472,7 @@ impl Prop for C20 {
         Some(("highlight", 3_000_000, 128))
     }
     fn rule(&self) -> &'static str {
-        "exhaustive: all strings of <= L lexemes over { ( ) [ ] #( \" ; newline space a #\\( } (L=5 quick, L=7 thorough) x every cursor 0..=bytes+2, tokenised by the harness' own tokenizer; random: Unicode token soup with random cursors. A case (text, cursor) is non-trivial when the text has >= 2 bracket tokens and the cursor is on or just after one; distinct by (text, cursor)."
+        "exhaustive: all strings of <= L lexemes over { ( ) [ ] #( \" ; newline space a #\\( } (L=5 quick, L=7 thorough) x every cursor 0..=bytes+2, tokenised by the harness' own tokenizer; random strings of <= 14 lexemes over that alphabet extended with tab, U+00A0, U+0085, U+000B (white space below U+0100; the lexer takes every character above U+00FF as an identifier character), a multi-byte identifier character and braces, again tokenised by the harness; random: Unicode token soup with random cursors (tokenised by the SUT's scanner). A case (text, cursor) is non-trivial when the text has >= 2 bracket tokens and the cursor is on or just after one; distinct by (text, cursor)."
     }
     fn assumptions(&self) -> Vec<&'static str> {
         vec![
@@ -457,7 +490,7 @@ impl Prop for C20 {
         let mut global = 0u64;
         let mut strings = 0u64;
         for len in 0..=max_len {
-            let total = 11u64.pow(len as u32);
+            let total = (EXHAUSTIVE_LEXEMES as u64).pow(len as u32);
             for idx in 0..total {
                 global += 1;
                 if (global as usize) % ctx.nshards != ctx.shard {
@@ -496,10 +529,13 @@ impl Prop for C20 {
         ctx.extra_add("exhaustive_strings", strings);
         let cases = ctx.tier.pick(4_000u32, 150_000u32);
         ctx.run_bytes("soup", cases, 96, soup_outcome);
+        let ext = ctx.tier.pick(3_000u32, 100_000u32);
+        ctx.run_bytes("ext", ext, 40, ext_outcome);
     }
     fn replay(&self, ctx: &Ctx, kind: &str, payload: &Value) -> Outcome {
         match kind {
             "soup" => soup_outcome(ctx, &unhex(payload["bytes"].as_str().unwrap_or(""))),
+            "ext" => ext_outcome(ctx, &unhex(payload["bytes"].as_str().unwrap_or(""))),
             "fuzz:highlight" => {
                 let data = unhex(payload["bytes"].as_str().unwrap_or(""));
                 if data.len() < 2 {
